@@ -297,7 +297,9 @@ TraceGens ==
      ELSE /\ \/ Ev.g = "new" /\ GensNew(Ev.role, Ev.argparties, Ev.argcap, Content)
              \/ Ev.g = "inc" /\ GensIncrease(Ev.role, Ev.argcap, Content)
              \/ Ev.g \in {"ser", "clone"} /\ GensCopy(Ev.role, Content)
-             \/ Ev.g = "view" /\ Has(Ev, "ret") /\ GensView(Ev.role, Ev.kind, Ev.n, Ev.m, Ev.ret)
+             \* (walks_bad: the other ways of walking the same iterator - nth, skip, step_by, count, last, size_hint - that did not list what
+             \*  plain iteration lists; the view is ONE sequence however it is walked)
+             \/ Ev.g = "view" /\ Has(Ev, "ret") /\ GensView(Ev.role, Ev.kind, Ev.n, Ev.m, Ev.ret) /\ (Has(Ev, "walks_bad") => Ev.walks_bad = << >>)
           \* the public capacity fields say what the table holds
           /\ Ev.cap = gens'[Ev.role].cap /\ Ev.parties = gens'[Ev.role].parties
           /\ Ev.g # "view" => (Ev.rawcap = Ev.cap /\ Ev.rawparties = Ev.parties)
